@@ -204,6 +204,10 @@ type ChunkWriter struct {
 
 // WriteChunk is called with chunked ServiceInfos.
 func (w *ChunkWriter) WriteChunk(kv *KV) error {
+	if kv == nil {
+		return errors.New("service info KV cannot be nil")
+	}
+
 	// If the key hasn't changed, keep streaming data
 	if w.w != nil && kv.Key == w.prevKey {
 		_, err := w.w.Write(kv.Val)
